@@ -2,7 +2,7 @@
 from proto_engine import *
 
 MODULE = "Feox.Props.C02W"
-THEOREMS = ['Feox.Fmt.recover_crashed_front_write', 'Feox.Fmt.span_avoids_front_alloc', 'Feox.Fmt.recover_crashed_write', 'Feox.Fmt.recover_crashed_retirement', 'Feox.Fmt.survivors_of_retirement', 'Feox.Fmt.span_avoids_retired', 'Feox.Fmt.crashed_open_end_to_end_slot1', 'Feox.Fmt.crashed_open_end_to_end_slot0', 'Feox.Fmt.journal_area_eq', 'Feox.Fmt.recover_crashed_device_journalled', 'Feox.Fmt.coalesceExtents_spec', 'Feox.Fmt.replayIo_ok', 'Feox.Fmt.recover_crashed_device', 'Feox.Fmt.marksClean_replayed', 'Feox.Fmt.recover_crashed_image', 'Feox.C02.acknowledged_record_survives_crash', 'Feox.Fmt.replay_io_on_bytes', 'Feox.C02.ack_durable', 'Feox.C02.acked_delete_gone', 'Feox.C02.acked_value_is_the_only_durable', 'Feox.C02.ack_needs_drained', 'Feox.C02.retire_needs_successor', 'Feox.Proto.Dur.step_inv', 'Feox.Proto.Dur.run_inv', 'Feox.Proto.scan_tiled']
+THEOREMS = ['Feox.Fmt.acknowledged_key_found_after_crashed_open', 'Feox.Fmt.unretired_key_found_after_crashed_retirement', 'Feox.Fmt.findLive_fold_of_nodup', 'Feox.Fmt.recover_crashed_front_write', 'Feox.Fmt.span_avoids_front_alloc', 'Feox.Fmt.recover_crashed_write', 'Feox.Fmt.recover_crashed_retirement', 'Feox.Fmt.survivors_of_retirement', 'Feox.Fmt.span_avoids_retired', 'Feox.Fmt.crashed_open_end_to_end_slot1', 'Feox.Fmt.crashed_open_end_to_end_slot0', 'Feox.Fmt.journal_area_eq', 'Feox.Fmt.recover_crashed_device_journalled', 'Feox.Fmt.coalesceExtents_spec', 'Feox.Fmt.replayIo_ok', 'Feox.Fmt.recover_crashed_device', 'Feox.Fmt.marksClean_replayed', 'Feox.Fmt.recover_crashed_image', 'Feox.C02.acknowledged_record_survives_crash', 'Feox.Fmt.replay_io_on_bytes', 'Feox.C02.ack_durable', 'Feox.C02.acked_delete_gone', 'Feox.C02.acked_value_is_the_only_durable', 'Feox.C02.ack_needs_drained', 'Feox.C02.retire_needs_successor', 'Feox.Proto.Dur.step_inv', 'Feox.Proto.Dur.run_inv', 'Feox.Proto.scan_tiled']
 
 
 def run(ctx):
